@@ -88,7 +88,7 @@ CHECKS["C04"] = dict(
           "Search loop, by induction over its iterations: for restrictions that depend on the edge only, a forbidden edge is never traversed and never recorded in the tree, in any reachable state."),
     design_ref="DESIGN.md sections 4 (C04) and 9",
     note=("Road-class, turn-restriction and per-edge restriction table lookups (std hash containers in the app crate) are not covered; the loop induction covers edge-local restrictions only "
-          "(a mask per edge id) - restricted TURNS (dependence on the previous edge) are not covered by it. Loop bounds: graphs up to 2 vertices / 1 edge (quick), 4 vertices / 4 edges (thorough)."),
+          "(a mask per edge id) - restricted TURNS (dependence on the previous edge) are not covered by it. Loop bounds: graphs up to 2 vertices / 1 edge (quick), 3 vertices / 3 edges (thorough)."),
     technique=TECH + TECH_LOOP,
 )
 CHECKS["C01"] = dict(
@@ -99,7 +99,7 @@ CHECKS["C01"] = dict(
           "joins the recorded parent to the entry's vertex in search direction and the parent's cost is strictly smaller, so parents lead to the origin without revisiting a vertex."),
     design_ref="DESIGN.md sections 4 (C01) and 9",
     note=("The core of the property - that the search loop only inserts consistent branches and never closes a parent cycle - is decided by induction over the iterations of the "
-          "real loop body (sliced from the source on every run) for EVERY graph with up to 2 vertices / 1-2 edges (quick) and 3-4 vertices / 3-4 edges (thorough), any mask, costs, direction, "
+          "real loop body (sliced from the source on every run) for EVERY graph with up to 2 vertices / 1-2 edges (quick) and 3 vertices / 3 edges (thorough), any mask, costs, direction, "
           "origin, destination and limit; callees (adjacency lookup, edge traversal, estimate) enter by their contracts (assume-guarantee with C15 / C07). Edge-oriented wrappers and ksp route "
           "concatenation are not covered (two genuine defects of the edge-oriented route assembly were found by reading and confirmed natively, see DESIGN 9.4; no check raises them). "
           "Trusted: hooks H1/H3 table models, H4 slicer, H5 override points."),
@@ -140,7 +140,7 @@ CHECKS["C15"] = dict(
 )
 CHECKS["C05"] = dict(
     text=("Decided by induction over the iterations of the real search loop (run_a_star's loop body, sliced from the current source on every run): for EVERY directed graph with up to "
-          "2 vertices / 2 edges (quick) or 3-4 vertices / 3-4 edges (thorough), every edge permission mask, cost assignment, direction, origin and optional destination, every state the loop "
+          "2 vertices / 2 edges (quick) or 3 vertices / 3 edges (thorough), every edge permission mask, cost assignment, direction, origin and optional destination, every state the loop "
           "can reach satisfies an invariant from which CBMC derives at the loop's exits: a search without destination ends with a tree whose vertices are exactly those reachable over "
           "permitted edges (origin excluded); a search with destination puts the destination in the tree only if it is reachable and reports 'no path' only if it is not; the only other "
           "failure is the iteration limit. Bounded in graph size, unbounded in the number of iterations."),
@@ -152,7 +152,7 @@ CHECKS["C05"] = dict(
 )
 CHECKS["C02"] = dict(
     text=("Dijkstra (weight factor 0), vertex-oriented, edge costs independent of how the edge was reached: by induction over the iterations of the real search loop (sliced from the "
-          "current source), for EVERY directed graph with 2 vertices and 1-2 edges (quick) or 3 vertices / 3 edges (thorough), every edge mask, cost assignment, direction, origin and "
+          "current source), for EVERY directed graph with 2 vertices and 1-2 edges (parallel, anti-parallel edges and self loops compete), every edge mask, cost assignment, direction, origin and "
           "destination, CBMC decides that closed vertices carry their least cost (Bellman-Ford oracle over the symbolic edge table, bit-exact), hence the destination is reached with "
           "least cost and a search without destination labels every tree vertex with its least cost; the cost accumulated along a tree path equals the label. Partial: A* is not decided."),
     design_ref="DESIGN.md section 9.6",
